@@ -98,7 +98,7 @@ func init() { Register(c18{}) }
 func (c18) ID() string { return "C18" }
 
 func (c18) Rule() string {
-	return "each run = one real node behind its real HTTP handler chain (v1 and v2 routers, all middleware incl. panic recovery), holding a v2 collection with every index kind, a v1 collection and a v2-created collection whose property is named vector (the name the v1 API assumes) with one of five schema variants (other index type, stray parameter blocks of another type and dimension), all with points; 40-80 seeded requests: structurally valid requests for every endpoint of both API versions mutated field by field (wrong types, missing / extra fields, null, NaN / Inf / huge numbers via MessagePack, vector lengths 0 / 1 / dim-1 / dim+1 / 4096 / 4097, limits and search sizes at and beyond their bounds, empty / very long / non-UTF8 strings, reserved property names, deep nesting, duplicate keys, truncated and random bodies, wrong or missing content type and headers, malformed collection ids), JSON and MessagePack. Oracle after every request: no panic in any goroutine (a crash event ends the run), never a 5xx (except for requests labelled NaN/Inf/huge, which are only required not to crash), a 4xx leaves the logical digest of every node database and shard file unchanged, requests labelled as schema-violating must get a 4xx, and the interposed distance functions never see operands of different length. Non-trivial: >= 10 requests answered 2xx and >= 10 answered 4xx. Distinct: trace hash."
+	return "each run = one real node behind its real HTTP handler chain (v1 and v2 routers, all middleware incl. panic recovery), holding a v2 collection with every index kind, a v1 collection and a v2-created collection whose property is named vector (the name the v1 API assumes) with one of five schema variants (other index type, stray parameter blocks of another type and dimension), all with points; 40-80 seeded requests: structurally valid requests for every endpoint of both API versions mutated field by field (wrong types, missing / extra fields, null, NaN / Inf / huge numbers via MessagePack, vector lengths 0 / 1 / dim-1 / dim+1 / 4096 / 4097, limits and search sizes at and beyond their bounds, empty / very long / non-UTF8 strings, reserved property names, deep nesting, duplicate keys, truncated and random bodies, wrong or missing content type and headers, malformed collection ids), JSON and MessagePack; plus points that fit the plan their collection was created under but exceed the point size of the plan named by the request (the active plan must decide). Oracle after every request: no panic in any goroutine (a crash event ends the run), never a 5xx (except for requests labelled NaN/Inf/huge, which are only required not to crash), a 4xx leaves the logical digest of every node database and shard file unchanged, requests labelled as schema-violating must get a 4xx, and the interposed distance functions never see operands of different length. Non-trivial: >= 10 requests answered 2xx and >= 10 answered 4xx. Distinct: trace hash."
 }
 
 const c18Dim = 3
@@ -112,13 +112,29 @@ func c18Point(r *rand.Rand, id int) map[string]any {
 // base requests: (method, path, body tree, label when unmutated)
 type c18Base struct {
 	method, path string
-	body         map[string]any
+	// body["__plan"] (removed before sending): the request is sent unmutated under that
+	// plan id and labelled must4xx — it is fine under the plan the collection was created
+	// with but exceeds a limit of the plan named by this request (the active plan decides)
+	body map[string]any
+}
+
+// c18SmallPlan: plan "q" allows points of at most this many encoded bytes (plan "p": 20000).
+const c18SmallPlanPointSize = 400
+
+func c18PlanBases(r *rand.Rand) []c18Base {
+	pad := strings.Repeat("p", 1500+r.IntN(2000))
+	return []c18Base{
+		{"POST", "/v1/collections/cv1/points", map[string]any{"points": []any{map[string]any{"id": PID(8000 + r.IntN(900)).String(), "vector": []any{1.0, 2.0, 3.0}, "metadata": map[string]any{"pad": pad}}}, "__plan": "q"}},
+		{"PUT", "/v1/collections/cv1/points", map[string]any{"points": []any{map[string]any{"id": PID(6000).String(), "vector": []any{1.0, 2.0, 3.0}, "metadata": map[string]any{"pad": pad}}}, "__plan": "q"}},
+		{"POST", "/v2/collections/cv2/points", map[string]any{"points": []any{map[string]any{"_id": PID(8900 + r.IntN(90)).String(), "vf": []any{1.0, 2.0, 3.0}, "meta": map[string]any{"pad": pad}}}, "__plan": "q"}},
+	}
 }
 
 func c18Bases(r *rand.Rand, nextID *int, xv int) []c18Base {
 	out := c18BasesMain(r, nextID)
 	if xv > 0 {
 		out = append(out, c18XBases(r, xv)...)
+		out = append(out, c18PlanBases(r)...) // drawn only by specs that have XVariant (newer generator)
 	}
 	return out
 }
@@ -316,7 +332,10 @@ func (c18) Generate(r *rand.Rand, tier string) (sim.Config, any) {
 		}
 		useMsgpack := r.IntN(10) < 3
 		var rawOverride []byte
-		if r.IntN(10) < 8 { // mutate
+		if pl, ok := b.body["__plan"].(string); ok {
+			delete(tree.(map[string]any), "__plan")
+			req.Plan, req.Label, req.Desc = pl, "must4xx", "point larger than the active plan "+pl+" allows"
+		} else if r.IntN(10) < 8 { // mutate
 			switch x := r.IntN(20); {
 			case x < 11 && tree != nil: // field-level
 				var paths []c18Path
@@ -530,7 +549,9 @@ func (c18) Execute(env *Env) {
 	poisoned := false
 	out := env.RunSim(env.Spec.Sim, func() {
 		w := NewClusterWorld(env, sw, net, clusterTemplate(8, 1, 300))
-		w.Plans = map[string]models.UserPlan{"p": plan}
+		small := plan
+		small.Name, small.MaxPointSize = "q", c18SmallPlanPointSize
+		w.Plans = map[string]models.UserPlan{"p": plan, "q": small}
 		if err := w.StartNode(0, []string{NodeAddr(0)}); err != nil {
 			env.Infra("start node: %v", err)
 			return
